@@ -870,13 +870,52 @@ func cmdImportx(args []string) int {
 			out.Violation("C11", s11bCase, msg)
 		}
 	}
+	finishS := func(run *simpRun) {
+		cs := run.Case.sx()
+		out.Case(cs, run.Impl)
+		out.Stats["cases"]++
+		out.Stats["schema_cases"]++
+		out.Stats["schema_mode_"+run.Case.Mode]++
+		out.Stats["exported_logs"] += run.Exported
+		if run.Schemas > 0 && run.Exported >= 3 {
+			out.Stats["distinct_nontrivial"]++
+		}
+		if run.Mixed {
+			out.Stats["schema_versioned_then_unversioned_create"]++
+		}
+		for _, v := range run.Viol {
+			out.Violation("C11", cs, v)
+		}
+	}
 	if f.Replay != "" {
 		for _, line := range ReadLines(f.Replay) {
+			if strings.HasPrefix(line, "(importx_schema ") {
+				finishS(runSimpCase(parseSimpCase(line), nil))
+				continue
+			}
 			if strings.HasPrefix(line, "(importx_s11b") {
 				s11b()
 				continue
 			}
 			finish(runImpCase(parseImpCase(line), nil))
+		}
+		return 0
+	}
+	if f.Extra["profile"] == "schemas" {
+		r := NewRng(f.Seed)
+		for i := 0; i < f.N; i++ {
+			rr := r.Fork()
+			mode := "audit" // un-versioned writes are accepted next to versioned ones
+			if rr.Chance(25) {
+				mode = "strict"
+			}
+			c := simpCase{Mode: mode, Now: int64(1700000000)*1000000 + 3600*1000000}
+			finishS(runSimpCase(c, func(exec func(SOp) OpResult) {
+				genSHistory(rr, 8, exec)
+				if rr.Chance(65) {
+					genSchemaTail(rr, exec)
+				}
+			}))
 		}
 		return 0
 	}
